@@ -119,8 +119,8 @@ def run(ctx):
     verdicts = ctx.replay("storequery", wcases + cases, "replay of TLC-generated stores, queries and word tables", timeout=3000)
     nq = 0
     for v in verdicts:
-        if v.get("ok") and str(v.get("detail", "")).isdigit():
-            nq += int(v["detail"])
+        if isinstance(v.get("got"), int):
+            nq += v["got"]
     ctx.cov["queries_executed"] = nq
     ctx.cov["evaluations"] += nq
     ctx.cov["replay_cases"] = {"words": len(wcases), "merge_queries": len(mq), "simulated_stores": len(sims),
